@@ -17,7 +17,7 @@ RULE = ('trees generated from the grammar (depth <= 4, arity 2-5, WITH pairs, sa
         'or a WITH pair or a redundant parenthesis; distinct by (table, text)')
 ASSUMPTIONS = ['for tables with operator words inside names the generating tree is the expectation only where no known name occurs across operand boundaries']
 
-UNK = ['u1', 'zed', 'q-1', 'Kx', 'Zed', 'ZED', 'kx']
+UNK = ['u1', 'zed', 'q-1', 'Kx', 'Zed', 'ZED', 'kx', 'or-newer', 'with:y', 'and+z', 'And.co']     # the last four: an operator word glued to the rest
 
 
 def unknown_key(rng):
@@ -221,6 +221,14 @@ class Prop(BaseProp):
             tags.append('undetermined')
         if ip != mp:
             return Verdict('diverge', case, 'Licensing.parse', impl=ip, model=mp, tags=tags)
+        # over a table without aliases whose keys are single words every name in the text is a key or unknown, which is what the
+        # simple tokenizer reads: it yields the same tree when every license of the tree is one word
+        if case['expected'] is not None and all(not al and len(k.split()) == 1 for k, al, _ in table) and \
+                all(len(a[i].split()) == 1 for a in gen.atoms_of(case['expected']) for i in ([1] if a[0] == 'sym' else [1, 3])):
+            isimple = impl.parse_c(lic, text, simple=True)
+            if isimple != [T('ok'), case['expected']]:
+                return Verdict('spec', case, 'tree (simple tokenizer, one-word licenses)', impl=isimple, model=[T('ok'), case['expected']], tags=tags)
+            tags.append('simple-too')
         return Verdict('ok', case, impl=ip, nontrivial=case.get('nt', True), tags=tags)
 
     def eval_tokens(self, drv, toks, table=()):
